@@ -288,7 +288,7 @@ type faultReader struct {
 	k        int
 	bytewise bool
 	forever  bool
-	withData bool // deliver the last good bytes together with the error
+	withData bool  // deliver the last good bytes together with the error
 	err      error // the error to fail with (default errInjected)
 	failed   int
 	calls    int
